@@ -16,7 +16,7 @@ import (
 	"verif/wire"
 )
 
-var c12States = []string{"never-connected", "never-connected-signal-taken", "down-signal-taken", "dialing", "connect-write-blocked", "connack-read-blocked", "resend-write-blocked", "online-idle", "online-writer-blocked", "holding-message", "holding-big-message", "writer-failed-unnoticed", "down", "pending-reconnect", "closed-already"}
+var c12States = []string{"never-connected", "never-connected-signal-taken", "down-signal-taken", "dialing", "connect-write-blocked", "connack-read-blocked", "resend-write-blocked", "online-idle", "online-writer-blocked", "holding-message", "holding-big-message", "writer-failed-unnoticed", "connect-awaits-sequence-lock", "down", "pending-reconnect", "closed-already"}
 var c12Actions = []string{"Close", "Disconnect-nil", "Disconnect-open-quit", "Disconnect-closed-quit"}
 
 func runShutdown(c *run.Ctx, state string, actions []string, parkHook bool, pendingPubs int, adopted int) {
@@ -39,6 +39,8 @@ func runShutdown(c *run.Ctx, state string, actions []string, parkHook bool, pend
 		}
 		return sim.DialDecision{}
 	}
+	saveRelease := make(chan struct{})
+	saveHeld := false
 	gatedWrite := false
 	failNextWrite := false
 	w.WritePlan = func(cn *sim.Conn, p []byte) sim.WriteDecision {
@@ -291,6 +293,35 @@ func runShutdown(c *run.Ctx, state string, actions []string, parkHook bool, pend
 			inflight = append(inflight, d.Go("Ping", func() error { return cl.Ping(nil) }))
 			w.WaitUntil(200*time.Millisecond, func() bool { return len(w.Broker.Held) >= 2 })
 		}
+	case "connect-awaits-sequence-lock":
+		// a publish sits inside Persistence.Save with its sequence lock; the
+		// connect attempt got its CONNACK and waits for that lock
+		saveEntered := make(chan struct{}, 1)
+		armedSave := true
+		w.Store.PreCopy = func() {
+			w.Mu.Lock()
+			first := armedSave
+			armedSave = false
+			w.Mu.Unlock()
+			if first {
+				saveEntered <- struct{}{}
+				<-saveRelease
+			}
+		}
+		go d.Publish(1+c.Rng.Intn(2), false, 3)
+		select {
+		case <-saveEntered:
+		case <-time.After(sim.StepTimeout):
+			stuck("the publish did not reach Persistence.Save")
+			return
+		}
+		d.GrantWhenPaused(sim.StepTimeout)
+		if !w.WaitUntil(sim.StepTimeout, func() bool { return w.PointCountLocked("dial.handshaked") >= 1 }) {
+			stuck("handshake not completed")
+			close(saveRelease)
+			return
+		}
+		saveHeld = true
 	case "down":
 		d.GrantWhenPaused(sim.StepTimeout)
 		if !w.WaitUntil(sim.StepTimeout, func() bool { return d.ReadCount() >= 1 }) {
@@ -351,7 +382,14 @@ func runShutdown(c *run.Ctx, state string, actions []string, parkHook bool, pend
 	// Disconnect needs the write lock: with a writer held inside Write it may
 	// wait for that write to end, so the held write gets released then.
 	promptly := true
-	if state == "dialing" && dialerIgnoresCancel {
+	if saveHeld {
+		// the actions may wait for connection control, which the connect attempt
+		// holds while it waits for the publisher; let them get there, then the
+		// Save returns
+		time.Sleep(time.Duration(1+c.Rng.Intn(5)) * time.Millisecond)
+		close(saveRelease)
+		saveHeld = false
+	} else if state == "dialing" && dialerIgnoresCancel {
 		// nothing can interrupt such a Dialer: the actions wait for it; let them
 		// get there, then the dial comes back with a connection nobody wants
 		time.Sleep(time.Duration(1+c.Rng.Intn(5)) * time.Millisecond)
@@ -445,7 +483,7 @@ func runShutdown(c *run.Ctx, state string, actions []string, parkHook bool, pend
 	w.Mu.Lock()
 	dialsAfter := w.Dials
 	w.Mu.Unlock()
-	if dialsAfter > dialsAtAction+1 || dialsAfter > dialsAtAction && state != "pending-reconnect" && state != "down" && state != "never-connected" && state != "holding-message" && state != "holding-big-message" && state != "writer-failed-unnoticed" {
+	if dialsAfter > dialsAtAction+1 || dialsAfter > dialsAtAction && state != "pending-reconnect" && state != "down" && state != "never-connected" && state != "holding-message" && state != "holding-big-message" && state != "writer-failed-unnoticed" && state != "connect-awaits-sequence-lock" {
 		// one more dial may have been under way when the action hit
 		c.Violate("dial-after-close", fmt.Sprintf("the Dialer was invoked %d more times after the client was closed", dialsAfter-dialsAtAction), detail())
 	}
@@ -595,7 +633,7 @@ func init() {
 			return 1100
 		},
 		ChunkSize:   40,
-		Rule:        "state x action matrix, states reached deterministically by gating: never connected; Dialer blocked; CONNECT write blocked after 0..n bytes; CONNACK read blocked after 0-3 bytes; resend write blocked mid-packet; online idle (with Subscribe and Ping awaiting responses); online with 1-3 Publish calls and a Subscribe, the first blocked inside Write; application holding a returned message; the same with a request's write having failed meanwhile (connection pending, signals still online); down after a failed connect; connection lost and not yet redialled; closed already. Actions: 1-4 of Close, Disconnect(nil), Disconnect(open quit), Disconnect(closed quit) concurrently, optionally delayed at the close.locked/disconnect.locked hook points and with yields at connect hook points; 0-4 persisted publishes pending whose exchange channels are deliberately left undrained. Oracle: every action returns while the connection operations stay blocked (a Disconnect may wait for a held write, which is then released); no panic; ReadSlices reports ErrClosed without another dial; in-flight requests return; afterwards all nine public methods return ErrClosed, Close returns nil, Offline is released, Online blocked, and the pair was never seen released together (sampler running all along); every pending exchange holds an ErrClosed and is still open; every connection got closed; a Disconnect that returned nil made DISCONNECT the last packet of its connection; no goroutine with a library frame remains. Non-trivial: action issued in a non-idle state; distinct by (state, action multiset, hook delay, pending publishes).",
+		Rule:        "state x action matrix, states reached deterministically by gating: never connected; Dialer blocked; CONNECT write blocked after 0..n bytes; CONNACK read blocked after 0-3 bytes; resend write blocked mid-packet; online idle (with Subscribe and Ping awaiting responses); online with 1-3 Publish calls and a Subscribe, the first blocked inside Write; application holding a returned message; the same with a request's write having failed meanwhile (connection pending, signals still online); a connect attempt that got its CONNACK and waits for the sequence lock of a publish inside Persistence.Save; down after a failed connect; connection lost and not yet redialled; closed already. Actions: 1-4 of Close, Disconnect(nil), Disconnect(open quit), Disconnect(closed quit) concurrently, optionally delayed at the close.locked/disconnect.locked hook points and with yields at connect hook points; 0-4 persisted publishes pending whose exchange channels are deliberately left undrained. Oracle: every action returns while the connection operations stay blocked (a Disconnect may wait for a held write, which is then released); no panic; ReadSlices reports ErrClosed without another dial; in-flight requests return; afterwards all nine public methods return ErrClosed, Close returns nil, Offline is released, Online blocked, and the pair was never seen released together (sampler running all along); every pending exchange holds an ErrClosed and is still open; every connection got closed; a Disconnect that returned nil made DISCONNECT the last packet of its connection; no goroutine with a library frame remains. Non-trivial: action issued in a non-idle state; distinct by (state, action multiset, hook delay, pending publishes).",
 		Assumptions: []string{"promptness is decided structurally: the actions must return while the gates that block the connection operations stay closed", "goroutines get 2 s to wind down before they count as left behind"},
 		Run: func(c *run.Ctx) {
 			state := c12States[c.Case%len(c12States)]
